@@ -57,6 +57,19 @@ def r1_layout(ctx, fields):
                "%s:%d" % (v["file"], v["line"]), sample={"field": n, "mask": hex(m), "shift": s, "width": width})
     overlap = [(a, b) for i, (a, va) in enumerate(items) for b, vb in items[i + 1:] if va["mask"] & vb["mask"]]
     ctx.ob(rid, "pairwise-disjoint", not overlap, "" if not overlap else "overlapping Move fields: %s" % overlap, "")
+    # every field is wide enough for its domain; the setters OR their value in unmasked, so a value that does not fit
+    # spills into the neighbouring field (for the undo clock: into the previous e.p. square, which the hash delta reads)
+    DOMAIN_BITS = {"get_source_square": 6, "get_target_square": 6, "get_next_en_passant_square": 6, "get_previous_en_passant_square": 6,
+                   "get_piece_moved": 3, "get_piece_attacked": 3, "get_promotion_piece": 3, "get_previous_halfmove": 12, "get_side_to_move": 1}
+    for n, v in items:
+        need = DOMAIN_BITS.get(n)
+        if need is None:
+            continue
+        width = (v["mask"] >> v["shift"]).bit_length() if v["shift"] >= 0 else 0
+        ok = width >= need
+        ctx.ob(rid, "domain|%s" % n, ok,
+               "" if ok else "Move::%s has %d bits but its values need %d (squares 0..63, pieces 0..6, the half-move clock 0..4095 of the property's quantifier): larger values are OR-ed in unmasked and corrupt the field above it" % (n, width, need),
+               "%s:%d" % (v["file"], v["line"]), sample={"field": n, "width": width, "needed": need})
 
 
 def r2_reach(ctx, fields, setters, pairing):
@@ -285,6 +298,32 @@ def r7_every_move_fully_recorded(ctx, rid="C02.R7"):
                 init = ex.initial(mv_local) if hasattr(ex, "initial") else None
                 if not (init and init[0] == "agg"):
                     continue
+            # a producer that always records PAWN as the moving piece emits pawn moves only: each of them resets the
+            # half-move clock, captures or not (make_move's general condition is judged by R4)
+            pawn_only = False
+            PAWN_V = prog.const_value("inkayaku_board::board::constants::PAWN")
+            for bi in setter_blocks.get("set_piece_moved", ()):
+                t_ = f["blocks"][bi]["term"]
+                a_ = ex.operand(t_["args"][1])
+                try:
+                    pawn_only = fold(a_) == PAWN_V
+                except Unfoldable:
+                    pawn_only = False
+            if pawn_only:
+                via = setter_blocks.get("set_halfmove_reset", set())
+                seen, work, reach = set(), [0], False
+                while work:
+                    x = work.pop()
+                    if x in seen or x in via:
+                        continue
+                    seen.add(x)
+                    if x == pb:
+                        reach = True
+                        break
+                    work.extend(y for y in cfg.succ[x] if not f["blocks"][y]["cleanup"])
+                ctx.ob(rid, "%s|pawn-move-resets-the-clock" % k.rsplit("::", 1)[-1], not reach,
+                       "" if not reach else "%s emits pawn moves (piece_moved = PAWN) but can do so without set_halfmove_reset: a pawn move that captures nothing (a quiet promotion, a push) then increments the half-move clock instead of resetting it" % f["display"],
+                       ctx.where(f, line))
             for sname in UNCONDITIONAL_SETTERS:
                 via = setter_blocks.get(sname, set())
                 if not via and sname not in ALWAYS_REQUIRED:
